@@ -128,6 +128,7 @@ def report(prop, fails, known):
     """fails: list of (key, what, replay_text). returns rc"""
     rc = 0; printed = 0
     hits = {}
+    fails = sorted(fails, key=lambda f: "no-failing-input-found" in f[1])      # concrete failing rows / programs first
     for key, what, replay in fails:
         k = None
         for kf in known:
